@@ -12,6 +12,7 @@ package main
 
 import (
 	"encoding/json"
+	"reflect"
 	"flag"
 	"fmt"
 	"go/ast"
@@ -58,6 +59,17 @@ var refuse = map[string]map[string]bool{
 	},
 }
 
+// method names that look like operations on sync.Map, sync.Pool, sync.Once, sync.WaitGroup or sync/atomic values
+var syncOps = map[string]bool{
+	"Load": true, "Store": true, "LoadOrStore": true, "LoadAndDelete": true, "CompareAndSwap": true, "Swap": true,
+	"CompareAndDelete": true, "Range": true, "Delete": true, "Add": true, "Or": true, "And": true,
+	"Get": true, "Put": true, "Do": true,
+	"AddInt32": true, "AddInt64": true, "AddUint32": true, "AddUint64": true, "LoadInt32": true, "LoadInt64": true,
+	"LoadUint32": true, "LoadUint64": true, "LoadPointer": true, "StoreInt32": true, "StoreInt64": true, "StoreUint32": true,
+	"StoreUint64": true, "StorePointer": true, "CompareAndSwapInt32": true, "CompareAndSwapInt64": true,
+	"CompareAndSwapUint32": true, "CompareAndSwapUint64": true, "CompareAndSwapPointer": true,
+}
+
 type edit struct {
 	off  int
 	n    int
@@ -77,10 +89,25 @@ func main() {
 		*srcTree = *repo
 	}
 
-	pkgdir := filepath.Join(*srcTree, "uhppote")
-	files, err := filepath.Glob(filepath.Join(pkgdir, "*.go"))
-	if err != nil || len(files) == 0 {
-		fmt.Fprintf(os.Stderr, "rewrite: no sources in %s (%v)\n", pkgdir, err)
+	// every non-test source file of the library, whatever its package
+	var files []string
+	filepath.Walk(*srcTree, func(p string, info os.FileInfo, err error) error {
+		if err != nil {
+			return nil
+		}
+		if info.IsDir() {
+			if b := info.Name(); b == ".git" || b == "_out" || b == "testdata" || (strings.HasPrefix(b, ".") && p != *srcTree) {
+				return filepath.SkipDir
+			}
+			return nil
+		}
+		if strings.HasSuffix(p, ".go") && !strings.HasSuffix(p, "_test.go") {
+			files = append(files, p)
+		}
+		return nil
+	})
+	if len(files) == 0 {
+		fmt.Fprintf(os.Stderr, "rewrite: no sources in %s\n", *srcTree)
 		os.Exit(2)
 	}
 	sort.Strings(files)
@@ -93,11 +120,11 @@ func main() {
 
 	overlay := map[string]string{}
 	stats := map[string]int{}
+	have := map[string]bool{}
 
 	for _, f := range files {
-		if strings.HasSuffix(f, "_test.go") {
-			continue
-		}
+		rel, _ := filepath.Rel(*srcTree, f)
+		have[rel] = true
 		src, err := os.ReadFile(f)
 		if err != nil {
 			fmt.Fprintln(os.Stderr, "rewrite:", err)
@@ -108,14 +135,14 @@ func main() {
 			fmt.Fprintln(os.Stderr, "rewrite:", err)
 			os.Exit(2)
 		}
-		target := filepath.Join(*repo, "uhppote", filepath.Base(f))
+		target := filepath.Join(*repo, rel)
 		if n == 0 {
 			if *srcTree != *repo {
 				overlay[target] = f
 			}
 			continue
 		}
-		dst := filepath.Join(srcdir, filepath.Base(f))
+		dst := filepath.Join(srcdir, strings.ReplaceAll(rel, string(filepath.Separator), "__"))
 		if err := os.WriteFile(dst, res, 0o644); err != nil {
 			fmt.Fprintln(os.Stderr, "rewrite:", err)
 			os.Exit(2)
@@ -124,30 +151,7 @@ func main() {
 	}
 
 	if *srcTree != *repo {
-		// an edited copy: every other source file of the copy stands in for its namesake, and files
-		// the copy no longer has are hidden
-		have := map[string]bool{}
-		filepath.Walk(*srcTree, func(p string, info os.FileInfo, err error) error {
-			if err != nil {
-				return nil
-			}
-			if info.IsDir() {
-				if b := info.Name(); b == ".git" || b == "_out" {
-					return filepath.SkipDir
-				}
-				return nil
-			}
-			rel, _ := filepath.Rel(*srcTree, p)
-			if !strings.HasSuffix(p, ".go") || strings.HasSuffix(p, "_test.go") {
-				return nil
-			}
-			have[rel] = true
-			if filepath.Dir(rel) == "uhppote" {
-				return nil
-			}
-			overlay[filepath.Join(*repo, rel)] = p
-			return nil
-		})
+		// an edited copy: files the copy no longer has are hidden
 		filepath.Walk(*repo, func(p string, info os.FileInfo, err error) error {
 			if err != nil {
 				return nil
@@ -167,7 +171,7 @@ func main() {
 	}
 
 	if len(overlay) == 0 {
-		fmt.Fprintln(os.Stderr, "rewrite: no seam found in package uhppote - nothing to simulate")
+		fmt.Fprintln(os.Stderr, "rewrite: no seam found in the library - nothing to simulate")
 		os.Exit(2)
 	}
 
@@ -300,12 +304,104 @@ func rewriteFile(name string, src []byte, stats map[string]int) ([]byte, int, er
 		})
 		return found
 	}
+	chanFuncs := map[*ast.BlockStmt]bool{}
 	for _, d := range file.Decls {
 		if fd, ok := d.(*ast.FuncDecl); ok && concurrent(fd.Body) {
 			addYields(fd.Body)
+			chanFuncs[fd.Body] = true
 		}
 	}
 	stats["yield-points"] += yields
+
+	// Scheduling points around shared-memory synchronisation: a statement that calls a method named like an
+	// operation of sync.Map / sync.Pool / sync.Once / sync/atomic (no type information is used: a namesake only
+	// costs a scheduling point) gets a yield before and after it, in every package of the library, so that
+	// lazily initialised or cached state is explored under interleavings and not only at kernel hooks.
+	// Not inside a function literal handed to Do (sync.Once holds a real lock while it runs).
+	syncYields := 0
+	var walkStmts func(list []ast.Stmt, inOnce bool)
+	hasSyncCall := func(st ast.Node) bool {
+		if st == nil || reflect.ValueOf(st).IsNil() {
+			return false
+		}
+		found := false
+		ast.Inspect(st, func(n ast.Node) bool {
+			switch x := n.(type) {
+			case *ast.FuncLit, *ast.BlockStmt:
+				return false // nested statements are visited on their own
+			case *ast.CallExpr:
+				if sel, ok := x.Fun.(*ast.SelectorExpr); ok && syncOps[sel.Sel.Name] {
+					_, chained := sel.X.(*ast.CallExpr)
+					tag := false
+					if inner, ok := sel.X.(*ast.SelectorExpr); ok && inner.Sel.Name == "Tag" { // reflect.StructTag.Get
+						tag = true
+					}
+					if !(chained && sel.Sel.Name == "Add") && !tag { // time.Now().Add(..)
+						found = true
+					}
+				}
+			}
+			return !found
+		})
+		return found
+	}
+	var walkNode func(n ast.Node, inOnce bool)
+	walkNode = func(n ast.Node, inOnce bool) {
+		ast.Inspect(n, func(m ast.Node) bool {
+			switch x := m.(type) {
+			case *ast.CallExpr:
+				if sel, ok := x.Fun.(*ast.SelectorExpr); ok && sel.Sel.Name == "Do" {
+					for _, a := range x.Args {
+						walkNode(a, true)
+					}
+					walkNode(x.Fun, inOnce)
+					return false
+				}
+			case *ast.BlockStmt:
+				walkStmts(x.List, inOnce)
+				return false
+			case *ast.CaseClause:
+				walkStmts(x.Body, inOnce)
+				return false
+			case *ast.CommClause:
+				walkStmts(x.Body, inOnce)
+				return false
+			}
+			return true
+		})
+	}
+	walkStmts = func(list []ast.Stmt, inOnce bool) {
+		for _, st := range list {
+			switch st.(type) {
+			case *ast.ExprStmt, *ast.AssignStmt, *ast.DeclStmt, *ast.IncDecStmt, *ast.SendStmt:
+				if !inOnce && hasSyncCall(st) {
+					edits = append(edits, edit{off: fset.Position(st.Pos()).Offset, n: 0, with: "vnet.Yield(); "})
+					edits = append(edits, edit{off: fset.Position(st.End()).Offset, n: 0, with: "; vnet.Yield()"})
+					syncYields += 2
+				}
+			case *ast.IfStmt:
+				// `if v, ok := m.Load(k); ok {` : a yield before the statement; the blocks begin with their own
+				if x := st.(*ast.IfStmt); !inOnce && (hasSyncCall(x.Init) || hasSyncCall(x.Cond)) {
+					edits = append(edits, edit{off: fset.Position(st.Pos()).Offset, n: 0, with: "vnet.Yield(); "})
+					edits = append(edits, edit{off: fset.Position(x.Body.Lbrace).Offset + 1, n: 0, with: " vnet.Yield();"})
+					edits = append(edits, edit{off: fset.Position(st.End()).Offset, n: 0, with: "; vnet.Yield()"})
+					syncYields += 3
+				}
+			case *ast.ReturnStmt:
+				if !inOnce && hasSyncCall(st) {
+					edits = append(edits, edit{off: fset.Position(st.Pos()).Offset, n: 0, with: "vnet.Yield(); "})
+					syncYields++
+				}
+			}
+			walkNode(st, inOnce)
+		}
+	}
+	for _, d := range file.Decls {
+		if fd, ok := d.(*ast.FuncDecl); ok && fd.Body != nil {
+			walkStmts(fd.Body.List, false)
+		}
+	}
+	stats["sync-yield-points"] += syncYields
 
 	if len(edits) == 0 {
 		return src, 0, nil
